@@ -37,6 +37,10 @@ Lemma c09_stored_valid_inputs csem mp mo fs :
   inputs_valid_o csem GA mp mo fs.
 Proof. apply stored_valid_inputs. Qed.
 
+Lemma c09_input_files_valid_hyps csem mp mo fs :
+  input_files_valid csem GA mp mo fs -> inputs_valid_o csem GA mp mo fs /\ inputs_header_valid fs.
+Proof. apply input_files_valid_hyps. Qed.
+
 Lemma c09_opts_none_is_arith csem b : AR.bt_kind b = AR.KStd ->
   (validate_batch_o csem GA (no_opts b) = AR.ROk <-> AR.validate_batch GA b = AR.ROk).
 Proof. apply validate_batch_o_none. Qed.
@@ -80,7 +84,7 @@ Definition xo_mo (id : N) : vopts :=
 (* file 1: BypassDestinationValidation + CustomTraceNumbers; foreign prefix, DESCENDING *)
 Definition xo_f1 : ifileo :=
   mkIFO xo_origin xo_dest 1 (mk [ix_bypass_dest; ix_custom_trace] None)
-        [mkIBO (mkIBatch (xo_hdr 1) [en 99887766 9 1; en 99887766 3 2]) None].
+        [mkIBO (mkIBatch (xo_hdr 1) [en 99887766 9 1; en 99887766 3 2]) (mk [ix_custom_trace] None)].
 (* file 2: BypassDestinationValidation; its batch stores UnequalServiceClassCode and holds a control
    record of class 200 under a header of class 220 *)
 Definition xo_f2 : ifileo :=
@@ -144,3 +148,17 @@ Lemma ex_opts_needed_by_outputs :
   forallb (fun g => negb (file_valid_o ex_csem GA (m_ofile GA xo_mp xo_mo (strip_file g)))) (merge_files_o xo_files xo_conds) = true
   /\ existsb (fun g => negb (file_valid_o ex_csem GA (m_ofile GA xo_mp xo_mo (strip_batches g)))) (merge_files_o xo_files xo_conds) = true.
 Proof. split; vm_compute; reflexivity. Qed.
+
+(* the example inputs as whole files: each passes File.Validate() under its stored options (the view
+   holds batch number 1, the control records of [xo_ctl], the tabulated file control) *)
+Definition xo_view (f : ifileo) : vfile :=
+  let bs := map (fun ib => m_ibatch_o xo_mp xo_mo None ib 1 (xo_ctl ib)) (fo_batches f) in
+  mkvf (fo_opts f) (fo_origin f) (fo_dest f) bs (tab_fctl_o GA (map vb_b bs)).
+
+Lemma ex_opts_files_valid : input_files_valid ex_csem GA xo_mp xo_mo xo_files.
+Proof.
+  intros f Hf. exists (xo_view f).
+  destruct Hf as [<-|[<-|[]]]; (split; [|split; vm_compute; reflexivity]);
+    (split; [reflexivity|split; [reflexivity|split; [reflexivity|]]]);
+    repeat constructor.
+Qed.
